@@ -4,7 +4,7 @@ from __future__ import annotations
 
 from .. import terms as tm
 from ..model import AnalysisError
-from .common import ob, need, call_name, roles, swap_roles, role_of, lit, is_lit, resolve_ite_free
+from .common import count_form, ob, need, call_name, roles, swap_roles, role_of, lit, is_lit, resolve_ite_free
 from . import common
 from .. import symeval
 from ..constfold import table
@@ -115,6 +115,8 @@ def facet_of(t):
                 return (p, "SEMI0:8")
             if j.op == "slice" and all(tm.is_const(z, None) for z in j.a):
                 return (p, "SEMIall")
+            if j.op == "slice" and tm.is_const(j.a[0], None) and tm.is_const(j.a[2], None) and (tm.is_const(j.a[1], 12) or (j.a[1].op == "glob" and j.a[1].a[0] == "chord.BITMAP_LENGTH")):
+                return (p, "SEMIall")  # the first BITMAP_LENGTH (= 12, C10.TABLES) columns are all of them
     return None
 
 
@@ -360,6 +362,28 @@ def rule_vocab(ctx):
                     if v is not None and v.op == "iter" and names is not None:
                         good = sorted(names) == sorted(["maj", "min", "maj7", "7", "min7", ""])
                         why = "in-vocabulary iff the whole reference bitmap equals QUALITIES[q] for q in %s" % names
+            # one broadcast comparison: any(all(ref[:, None, :] == V[None, :, :], axis=2), axis=1)
+            if s_.op == "call" and call_name(s_) == "np.any" and s_.a[1] and any(n == "axis" and tm.is_const(v, 1) for n, v in s_.a[2]):
+                inner = s_.a[1][0]
+                if inner.op == "call" and call_name(inner) == "np.all" and inner.a[1] and any(n == "axis" and (tm.is_const(v, 2) or tm.is_const(v, -1)) for n, v in inner.a[2]):
+                    eq = inner.a[1][0]
+                    if eq.op == "cmp" and eq.a[0] == "==":
+                        def _strip_axes(z):
+                            # x[:, None, :] / x[None, :, :] -> (x, position of the new axis)
+                            if z.op == "sub" and z.a[1].op == "tuple" and len(z.a[1].a) == 3:
+                                pos = [i for i, k in enumerate(z.a[1].a) if (k.op == "const" and k.a[0] is None) or (k.op == "ext" and k.a[0] == "np.newaxis")]
+                                if len(pos) == 1 and all(k.op == "slice" and all(tm.is_const(q, None) for q in k.a) for i, k in enumerate(z.a[1].a) if i != pos[0]):
+                                    return z.a[0], pos[0]
+                            return z, None
+
+                        for u, w in ((eq.a[1], eq.a[2]), (eq.a[2], eq.a[1])):
+                            ub, upos = _strip_axes(u)
+                            wb, wpos = _strip_axes(w)
+                            fa = facet_of(ub)
+                            names = _quality_list(wb)
+                            if fa is not None and fa[1] == "SEMIall" and role_of(fa[0]) == "R" and upos == 1 and wpos in (0, None) and names is not None:
+                                good = sorted(names) == sorted(["maj", "min", "maj7", "7", "min7", ""])
+                                why = "in-vocabulary iff the whole reference bitmap equals QUALITIES[q] for q in %s (one broadcast comparison)" % names
         yield ob("C11.VOCAB", f, "chord.%s:vocabulary" % name, good, why)
     for name in ("majmin_inv", "sevenths_inv"):
         f, s, base, stores = model(ctx, name, "C11.VOCAB")
@@ -379,6 +403,21 @@ def rule_vocab(ctx):
                         i0, i1 = val.a[1].a
                         vv = fa is not None and fa[1] == "SEMIall" and role_of(fa[0]) == "R" and i0 is key and i1.op == "sub" and i1.a[1] is key and facet_of(i1.a[0]) == facet_of(key.a[2])
                     good = ones and kb and vv
+            # index form: scores[K[ref_semitones[K, ref_bass[K]] == 0]] = -1 with K = flatnonzero(ref_bass >= 0)
+            if not good and m.op == "sub":
+                K, inner = m.a
+                z = _none_of(inner)
+                kcond = K.a[1][0] if K.op == "call" and call_name(K) in ("np.flatnonzero", "np.nonzero", "np.where") and len(K.a[1]) == 1 else (K if K.op == "cmp" else None)
+                if K.op == "sub" and tm.is_const(K.a[1], 0) and K.a[0].op == "call" and call_name(K.a[0]) in ("np.nonzero", "np.where") and len(K.a[0].a[1]) == 1:
+                    kcond = K.a[0].a[1][0]
+                if z is not None and kcond is not None:
+                    kb = kcond.op == "cmp" and kcond.a[0] == "<=" and tm.is_const(kcond.a[1], 0) and facet_of(kcond.a[2]) is not None and facet_of(kcond.a[2])[1] == "BASS" and role_of(facet_of(kcond.a[2])[0]) == "R"
+                    vv = False
+                    if z.op == "sub" and z.a[1].op == "tuple" and len(z.a[1].a) == 2:
+                        fa = facet_of(z.a[0])
+                        i0, i1 = z.a[1].a
+                        vv = fa is not None and fa[1] == "SEMIall" and role_of(fa[0]) == "R" and i0 is K and i1.op == "sub" and i1.a[1] is K and kb and facet_of(i1.a[0]) == facet_of(kcond.a[2])
+                    good = kb and vv
         yield ob("C11.VOCAB", f, "chord.%s:bass-is-chord-tone" % name, good, "a reference whose bass is not a chord tone (bitmap[bass] == 0) is ignored")
 
 
@@ -454,6 +493,12 @@ def rule_mirexconst(ctx):
                 lower_ok = True
             if x.op == "cmp" and x.a[0] == "<=" and tm.is_const(x.a[1], 1) and x.a[2].op == "call" and call_name(x.a[2]) == "np.sum":
                 lower_ok = True
+            # membership of the integer count in range(lo, hi): lo <= count < hi
+            if x.op == "call" and call_name(x) in ("np.isin", "np.in1d") and len(x.a[1]) == 2 and x.a[1][0].op == "call" and call_name(x.a[1][0]) == "np.sum":
+                rng = x.a[1][1]
+                if rng.op == "call" and call_name(rng) in ("np.arange", "builtins.range") and len(rng.a[1]) == 2 and is_lit(rng.a[1][0]) and is_lit(rng.a[1][1]):
+                    skip_thr = lit(rng.a[1][1])
+                    lower_ok = lit(rng.a[1][0]) == 1
     yield ob("C11.MIREXCONST", f, "chord.mirex:skip-threshold", skip_thr is not None and skip_thr == thr and lower_ok, "references with 1..%s-1 pitch classes are skipped (count > 0 and count < threshold); same constant as the hit threshold (%r)" % (skip_thr, thr))
     xm = any(any(xmask_of(x) for x in tm.walk(sk)) for sk in skip)
     yield ob("C11.MIREXCONST", f, "chord.mirex:x-skipped", xm, "X references (negative bitmap) are skipped")
@@ -511,17 +556,49 @@ def rule_encodeall(ctx):
         if m.how == "setitem" and m.root in ("roots", "semitones", "basses") or (m.how == "setitem" and m.key is not None and m.key.op == "idx"):
             outs.setdefault(m.root, []).append(m)
     need(len(outs) >= 3, R, "encode_many: the three output stores were not found")
+    # per-field codebooks: lists that only ever receive one fixed component of encode(label, reduce)
+    books = {}
+    by_root = {}
+    for m in s.by_kind("mutate"):
+        if m.root is not None and m.root not in outs:
+            by_root.setdefault(m.root, []).append(m)
+    for rt, ms in by_root.items():
+        ks = set()
+        for m in ms:
+            v = m.val.a[0] if m.how == "method:append" and m.val.op == "tuple" and len(m.val.a) == 1 else None
+            if v is not None and v.op == "sub" and v.a[1].op == "const" and v.a[0].op == "call" and call_name(v.a[0]) == "chord.encode" and v.a[0].a[1] and v.a[0].a[1][0].op == "iter":
+                ks.add(v.a[1].a[0])
+            else:
+                ks.add(None)
+        if len(ks) == 1 and None not in ks:
+            books[rt] = ks.pop()
+
+    def book_of(t, depth=0):
+        if depth > 12:
+            return None
+        if t.op in ("loop", "loopvar"):
+            return t.a[1] if t.a[1] in books else None
+        if t.op == "upd":
+            return book_of(t.a[0], depth + 1)
+        if t.op == "ite":
+            a, b = book_of(t.a[1], depth + 1), book_of(t.a[2], depth + 1)
+            return a if a == b else None
+        return None
+
     for root, ms in sorted(outs.items()):
         for k, m in enumerate(ms):
             v0 = m.val.a[0] if m.val.op == "sub" else m.val
             alts = resolve_ite_free(v0)
+            if m.val.op == "sub" and book_of(m.val.a[0]) is not None:
+                alts = [m.val]  # book[slot]: an entry of a codebook of encode() components
             good = bool(alts)
             for a in alts:
                 # component of encode(label, reduce) or of a cache lookup whose entries are such results
                 base = a.a[0] if a.op == "sub" else a
                 is_enc = base.op == "call" and call_name(base) == "chord.encode" and base.a[1] and base.a[1][0].op == "iter"
                 is_cache = base.op == "call" and call_name(base) in (".get",) or (base.op == "sub" and _only_encode_results(base.a[0])) or (a.op == "sub" and _only_encode_results(a.a[0]))
-                good = good and (is_enc or is_cache)
+                is_book = a.op == "sub" and book_of(a.a[0]) is not None
+                good = good and (is_enc or is_cache or is_book)
             conds = [tm.show(c, 2) for c, _ in symeval.pc_conds(m.pc)]
             good = good and not conds
             yield ob(R, f, "chord.encode_many:%s@%d" % (root, k), good, "output %s[i] is a component of encode(label) for every label" % root if good else "output %s[i] is written as %s%s: some labels bypass encode()" % (root, tm.show(m.val, 3), (" under " + "; ".join(conds)) if conds else ""), node=m.node)
@@ -529,6 +606,9 @@ def rule_encodeall(ctx):
     for m in s.by_kind("mutate"):
         if m.how == "setitem" and m.root not in outs:
             v = m.val
+            cf = count_form(v)
+            if cf is not None and book_of(cf[1]) is not None:
+                continue  # label -> position in a codebook
             good = v.op == "call" and call_name(v) == "chord.encode"
             yield ob(R, f, "chord.encode_many:cache-store", good, "the per-call cache stores encode(label, reduce_extended_chords)", node=m.node)
 
